@@ -240,6 +240,9 @@ func (t *Tool) TagS(id int64, s string) bool {
 // ---- state reader / mutator (only used with Forget/Changed) ----
 
 func (t *Tool) Peek() int64 { t.enter("Peek"); return t.St }
+
+// PeekK is Peek with a key argument (the key only makes the call text contain a string).
+func (t *Tool) PeekK(key string) int64 { t.enter("PeekK", key); return t.St + int64(len(key)%2) }
 func (t *Tool) Poke(v int64) {
 	t.enter("Poke", v)
 	t.St = v
